@@ -317,8 +317,36 @@ func (s Str) asBytes() (a, ln *Term, max int, ok bool) {
 		return strBytesTerm(s.Conc), Idx(len(s.Conc)), len(s.Conc), true
 	case 2:
 		return s.A, s.Len, s.Max, true
+	case 3:
+		// lower-case hex codecs have a byte-level expansion (needed for len / slicing of the text)
+		if s.Codec == "hexutil" || s.Codec == "hex" {
+			if p, isStr := s.Payload.(Str); isStr {
+				pa, pl, pm, pok := p.asBytes()
+				if pok && pm <= 64 {
+					return hexExpand(pa, pl, pm, s.Codec == "hexutil")
+				}
+			}
+		}
 	}
 	return nil, nil, 0, false
+}
+
+func hexExpand(pa, pl *Term, pm int, prefix bool) (a, ln *Term, max int, ok bool) {
+	a = ZeroMem
+	off := 0
+	if prefix {
+		a = Store(Store(a, Idx(0), BVu('0', 8)), Idx(1), BVu('x', 8))
+		off = 2
+	}
+	digit := func(n *Term) *Term { // n: 8-bit value below 16
+		return Ite(Ult(n, BVu(10, 8)), Add(n, BVu('0', 8)), Add(n, BVu('a'-10, 8)))
+	}
+	for i := 0; i < pm; i++ {
+		b := Select(pa, Idx(i))
+		a = Store(a, Idx(off+2*i), digit(ZExt(4, Extract(7, 4, b))))
+		a = Store(a, Idx(off+2*i+1), digit(ZExt(4, Extract(3, 0, b))))
+	}
+	return a, Add(Add(pl, pl), Idx(off)), 2*pm + off, true
 }
 
 // bytesEqTerm: equality of two byte sequences (array, offset, len, max).
